@@ -27,6 +27,10 @@ class GenTest:
         self.min_loop = min_loop        # loop iterations needed to reach the planted failure
 
 
+LIT_HASH_WORD = 0x1234
+LIT_HASH_SLOT = int.from_bytes(__import__("refevm").keccak(LIT_HASH_WORD.to_bytes(32, "big")), "big")
+
+
 def fail_tokens(kind):
     if kind == "panic1":
         return panic(1)
@@ -166,6 +170,14 @@ def gen_test(rng, idx, failure=None, kinds=None):
         op = {"div_zero_hit": "DIV", "mod_zero_hit": "MOD", "sdiv_zero_hit": "SDIV", "smod_zero_hit": "SMOD"}[kind]
         body = arg(1) + arg(0) + [op, "ISZERO"] + arg(1) + ["ISZERO", "AND"] + arg(0) + [("push", K, 32), "EQ", "AND", "@bad", "JUMPI", "STOP"] + bad
         return GenTest(Fn(name, [("x", U), ("y", U)], body), [[K, 0]], True, kind, failure, feats, needs_refinement=True)
+    if kind == "lit_slot":
+        # reads the slot that setUp wrote through the hard-coded hash constant: never fails (whatever another test or path hashed meanwhile)
+        body = [("push", LIT_HASH_SLOT, 32), "SLOAD", 7, "EQ", "ISZERO", "@bad", "JUMPI", "STOP"] + bad
+        return GenTest(Fn(name, [], body), [], False, kind, failure, feats | {"literal-hash-slot"})
+    if kind == "hash_touch":
+        # computes that very hash with SHA3 (and touches the slot through it); never fails
+        body = [LIT_HASH_WORD, 0, "MSTORE", 32, 0, "SHA3", "SLOAD", "POP"] + arg(0) + [0, "MSTORE", 32, 0, "SHA3", "POP", "STOP"] + bad
+        return GenTest(Fn(name, [("x", U)], body), [], False, kind, failure, feats | {"runtime-hash-of-literal-preimage"})
     if kind == "multi_width":
         # the same abstract operation at several bit widths on one path: MOD (256), ADDMOD (264) and MULMOD (512) all use the remainder
         # abstraction, MUL (256) and MULMOD (512) the multiplication one; every one of them has to be refined
@@ -228,7 +240,8 @@ def gen_test(rng, idx, failure=None, kinds=None):
 
 
 def gen_contract(rng, ntests=3, name="T", kinds=None, failure=None, symbolic_setup=False):
-    body = [SETUP_SLOT_VALUE, 1, "SSTORE"]
+    # setUp also writes a slot addressed by a hard-coded hash constant (keccak of a word that is not in halmos' precomputed table)
+    body = [SETUP_SLOT_VALUE, 1, "SSTORE", 7, ("push", LIT_HASH_SLOT, 32), "SSTORE"]
     if symbolic_setup:
         # a stored symbolic value constrained by vm.assume (state-related constraint) and a second symbol that is
         # constrained but never stored (a constraint outside the state slice of the setUp path)
